@@ -1,6 +1,7 @@
 package h2kit
 
 import (
+	"flag"
 	"sync"
 	"time"
 
@@ -54,4 +55,14 @@ func (p *Patience) Spent(d time.Duration) {
 		p.spent += d
 	}
 	p.mu.Unlock()
+}
+
+var shrinkOnce sync.Once
+
+// ShortShrink limits rapid's minimisation time for this process (the kit sets
+// a longer one when a check starts; rapid reads the flag when it starts to
+// shrink). Called from inside Run functions: every failing candidate of a
+// liveness failure costs a bounded wait, so long minimisation buys little.
+func ShortShrink() {
+	shrinkOnce.Do(func() { flag.Set("rapid.shrinktime", "15s") })
 }
